@@ -111,7 +111,7 @@ def specialise(rng, s):
                         l.append(gen_sel(rng, 0, maxlen=1))
                     else:
                         for x in l:
-                            if x["c"]["cl"]:
+                            if x["c"]["cl"] and (x["c"]["el"] is not None or len(x["c"]["cl"]) > 1):
                                 x["c"]["cl"].pop()
                                 break
                 else:
